@@ -297,6 +297,29 @@ class Pipeline:
         return rec
 
 
+def export_tie(pipe, m: dict, f) -> str | None:
+    """Correspondence of `exportModel` with `OnnxFunction.to_model_proto` on one program; None = equal."""
+    ds = " ".join(enc.sx(n, enc.attr_const_text(d)) for n, _, d in m["attrs"])
+    line = "export " + enc.sx("withdefaults", "(defaults " + ds + ")",
+                              enc.encode_function(m["src"], functions=gen.HELPER_PARAMS, env=gen.lean_env(m)))
+    ans = pipe.drv.ask([line])[0]
+    try:
+        mp = f.to_model_proto()
+    except Exception as e:
+        return None if ans.startswith("err ") else f"to_model_proto() raises {type(e).__name__} but the model exports"
+    if not ans.startswith("ok "):
+        return f"to_model_proto() succeeds but the model answers {ans[:60]}"
+    _, wf, refs, gtxt = ans.split(" ", 3)
+    real = enc.proto_to_neutral(mp.graph)
+    model = enc.lean_to_neutral(gtxt)
+    if refs != "norefs":
+        return "the model's exported graph still refers to an attribute parameter"
+    cr, cm = enc.canonical(real), enc.canonical(model)
+    if cr != cm:
+        return f"exported main graph differs: real {cr[:300]} model {cm[:300]}"
+    return None
+
+
 def count_constructs(src: str, stats: Counter):
     import ast as _ast
 
@@ -359,6 +382,9 @@ def process_batch(task: dict) -> dict:
                 st_lines.append("stable " + enc.encode_function(m["src"], functions=gen.HELPER_PARAMS,
                                                                 env=gen.lean_env(m)))
                 st_idx.append(m)
+        for m, a in zip(st_idx, pipe.drv.ask([l.replace("stable ", "fragment ", 1) for l in st_lines])):
+            # which refinement theorem covers the accepted program (Lean decides: straightLine / ifLine / forLine / nestLine)
+            stats["refinement_theorem_" + a] += 1
         for m, a in zip(st_idx, pipe.drv.ask(st_lines)):
             stats["liveness_fixpoints_checked"] += 1
             if a != "true":
@@ -403,6 +429,14 @@ def process_batch(task: dict) -> dict:
             if m.get("near_miss"):
                 out["struct_failures"].append({"meta": m, "what": f"near-miss program ({m['near_miss']}) was accepted "
                                                "instead of being refused at decoration time", "near_miss_accepted": True})
+            if rec["tie"] == "ok" and m["attrs"] and not m.get("near_miss") \
+                    and all(len(a) > 2 and a[2] is not None for a in m["attrs"]):
+                # `to_model_proto()` of a function whose attribute parameters all have defaults: the main graph the
+                # Lean `exportModel` predicts vs the one in the real ModelProto (defaults substituted, no references)
+                exp = export_tie(pipe, m, fn[m["name"]])
+                stats["export_ties"] += 1
+                if exp:
+                    out["ties"].append({"meta": m, "tie": exp, "real": None, "model": None})
             if task.get("semantic", True) and not m.get("near_miss") and rec["tie"] not in ("ok", "unmodelled") \
                     and not task.get("search"):
                 # model != implementation on this program: the oracle is run by the guarded search (a graph the
@@ -654,6 +688,23 @@ def main(run: core.Run) -> None:
     pf = split_known(run, pf, findings)
     # a corpus witness is *expected* to disagree structurally only if the model is wrong about it: ties count as usual
     verdict(run, audit, stats, features, ties, pf, "C01", PROP_MODULES, refusals)
+    require_coverage(stats, features, REQUIRED_STATS_C01, REQUIRED_FEATURES_C01)
+
+
+# branches of the modelled code / classes of programs every run must have exercised (an empty class means the
+# generator or the harness broke, not that the property holds)
+REQUIRED_STATS_C01 = ["refinement_theorem_straight", "refinement_theorem_if", "refinement_theorem_loop",
+                      "refinement_theorem_nested", "export_ties", "liveness_fixpoints_checked", "oracle_evaluations",
+                      "refused_TranslationError", "corpus_programs"]
+REQUIRED_FEATURES_C01 = ["for", "while", "for-break", "while-break", "closure", "closure-shadow", "closure-global",
+                         "closure-name-also-local", "inner-trip-count-shrinks", "mixed-opset-old",
+                         "user-names-like-generated", "loop-back-edge-only-variable"]
+
+
+def require_coverage(stats, features, need_stats, need_features):
+    missing = [k for k in need_stats if not stats.get(k)] + ["feature " + k for k in need_features if not features.get(k)]
+    if missing:
+        raise core.Infra("required coverage counters are zero: " + ", ".join(missing))
 
 
 FINGERPRINT_FUNCS = [
